@@ -18,7 +18,7 @@ for pid in ALL:
             evidence_file="/verif/evidence/%s.json" % pid,
             replay_cmd_template="./check --replay {path}",
             engine=c.get("engine", "coq-proof+differential"),
-            level_claimed=dict(category="proof", text=c["level_text"], design_ref=c.get("design_ref", "DESIGN.md section 7 (%s)" % pid)),
+            level_claimed=dict(category="proof", text=(c["level_text"] + (" " + c["level_extra"] if c.get("level_extra") else "")), design_ref=c.get("design_ref", "DESIGN.md section 7 (%s)" % pid)),
             level_note=c["level_note"],
             technique=c.get("technique", "machine-checked proof in Coq 8.16.1 (model tied to source by differential correspondence check)"),
         ))
